@@ -219,6 +219,26 @@ theorem end_to_end_headers_kept (ver : Ver) (method : Bytes) (h : Head) (kept : 
 
 /-! ## the request -/
 
+/-- **The header array stops growing**: for the constants of the code the doubling ends at a size that admits the
+documented maximum, and a head that parses has no more header lines than that -/
+theorem response_header_capacity :
+    responseHeaderCapacity = 128 ∧ TT.Gen.max_response_headers_num ≤ responseHeaderCapacity := by
+  decide
+
+theorem parsed_head_within_capacity (b : Bytes) (h : Head) (hp : parseHeadBytes b = some h) :
+    h.headers.length ≤ responseHeaderCapacity := by
+  unfold parseHeadBytes at hp
+  split at hp
+  · simp at hp
+  · simp only [Option.bind_eq_bind, Option.bind_eq_some_iff] at hp
+    obtain ⟨st, _, hs, _, hp⟩ := hp
+    split at hp
+    · simp at hp
+    · simp only [Option.some.injEq] at hp
+      subst hp
+      simp only
+      omega
+
 /-- **the request line keeps method and path, the version is HTTP/1.x** -/
 theorem request_line_preserved (r : Request) (bytes : Bytes) (bl : BodyLen)
     (h : serializeRequest r = .ok bytes bl) :
